@@ -210,6 +210,10 @@ pub static mut ALLOC_CALLS: usize = 0;
 extern "C" {
     fn malloc(n: usize) -> *mut u8;
 }
+/// CBMC's `malloc` (libc's natively; the stubs that call it are only active under Kani).
+pub unsafe fn cbmc_malloc(n: usize) -> *mut u8 {
+    malloc(n)
+}
 pub unsafe fn count_alloc_stub(l: std::alloc::Layout) -> *mut u8 {
     // CBMC's `malloc` (uninitialised contents, like the real `alloc`).  The
     // first version returned `std::alloc::alloc_zeroed(l)`: with CBMC 6.11 a
